@@ -65,6 +65,8 @@ pub fn build(contract: &str, m: &Value) -> Result<Binary, String> {
             }),
             _ => return Err(format!("unknown swap message {}", k)),
         },
+        "airtoken" if k == "send" => Ok(Binary::from(format!("{{\"send\":{{\"contract\":\"{}\",\"amount\":\"{}\",\"msg\":\"e30=\"}}}}", s(m, "contract"), m["amount"].as_u64().unwrap_or(0)).into_bytes())),
+        "airpair" if k == "receive" => Ok(Binary::from(format!("{{\"receive\":{{\"sender\":\"{}\",\"amount\":\"{}\",\"msg\":\"e30=\"}}}}", s(m, "sender"), m["amount"].as_u64().unwrap_or(0)).into_bytes())),
         _ => Ok(Binary::from(format!("{{\"{}\":{{}}}}", k).into_bytes())),
     };
     b.map_err(|e| e.to_string())
@@ -80,7 +82,12 @@ fn build_hub(k: &str, m: &Value) -> Result<Result<Binary, cosmwasm_std::StdError
         "check_slashing" => H::CheckSlashing {},
         "accept_ownership" => H::AcceptOwnership {},
         "set_owner" => H::SetOwner { new_owner_addr: s(m, "new_owner_addr") },
-        "update_global_index" => H::UpdateGlobalIndex { airdrop_hooks: if m["hooks"].as_u64().unwrap_or(0) == 0 { None } else { Some(vec![]) } },
+        "update_global_index" => H::UpdateGlobalIndex {
+            airdrop_hooks: match m["hooks"].as_u64().unwrap_or(0) {
+                0 => None,
+                n => Some(vec![Binary::from(b"{\"fabricate_claim\":{}}".to_vec()); n as usize]),
+            },
+        },
         "update_params" => H::UpdateParams {
             epoch_period: opt_u64(m, "epoch"),
             unbonding_period: opt_u64(m, "unbonding"),
